@@ -175,8 +175,14 @@ func (t *SimToken) Ping(ctx context.Context) error {
 }
 
 func (t *SimToken) Close() error {
-	seq, _ := t.begin("close", "")
+	seq, out := t.begin("close", "")
 	t.Closed = true
+	if out.Kind == "error" {
+		// releasing the session fails (it had gone bad already): the token is
+		// closed all the same, the caller is told
+		t.end(seq, "error")
+		return errors.New("simulated: token session could not be released cleanly")
+	}
 	t.end(seq, "ok")
 	return nil
 }
